@@ -521,7 +521,89 @@ def r12_9(chk):
     chk.floor("R12.9", 5, "6 call sites on the pinned tree")
 
 
+def r12_10(chk):
+    chk.rule("R12.10", "translation entry points translate the *realised* sequence (str(seq) / array(seq) / bytes(seq), which reverse and complement a minus-strand view): none reads the raw view `<seq>._seq` (its value / array(<seq>._seq) / iteration), whose characters are reversed but not complemented and whose frame is that of the plus strand (same detector as R01.1, applied to the translation family incl. locals bound to sequences)")
+    from . import c01
+
+    n = 0
+    for rel, q in ENTRY_POINTS:
+        if not rel.startswith("core/") or "sequence" not in rel and "alignment" not in rel:
+            continue
+        m = chk.repo.module(rel)
+        fn = m.func(q)
+        n += 1
+        reads = c01.raw_reads(fn)
+        guards = c01.guarded_complement(fn)
+        bad = [(node, desc) for node, desc in reads if not (c01._assigned_to(fn, node) in guards and c01._assigned_to(fn, node) is not None)]
+        for node, desc in bad:
+            chk.violation("R12.10", key(m, q, f"raw view read {norm(node)}"), m.loc(node), f"{desc}: the translation is computed from the raw view instead of the realised sequence; for a reverse-complemented sequence the codons are read from the wrong strand or in the wrong frame (length not a multiple of three)")
+        if not bad:
+            chk.ok("R12.10", key(m, q, "realised sequence only"), m.loc(fn), f"{len(reads)} raw read(s), all complemented under is_reversed", nontrivial=bool(reads))
+    probe = ast.parse("def get_translation(self):\n    seq = self\n    return gc.translate(array(seq._seq)[::-1], rc=True)\n").body[0]
+    if not c01.raw_reads(probe):
+        raise AnalysisError("R12.10 self-probe failed")
+    chk.floor("R12.10", 10, "sequence- and collection-level translation entry points")
+
+
+TABLE_CLASS_MODULES = ["core/moltype.py", "core/new_moltype.py", "core/genetic_code.py", "core/new_genetic_code.py", "core/alphabet.py", "core/new_alphabet.py"]
+
+
+def _shared_mutable_state(ci):
+    """[(attr, mutation node, method)] for class-level mutable literals that an instance method mutates through self"""
+    muts = {}
+    for st in ci.node.body:
+        if isinstance(st, (ast.Assign, ast.AnnAssign)):
+            v = st.value
+            if isinstance(v, (ast.Dict, ast.List, ast.Set)) or (isinstance(v, ast.Call) and norm(v.func) in ("dict", "list", "set", "defaultdict", "collections.defaultdict", "OrderedDict")):
+                for t in (st.targets if isinstance(st, ast.Assign) else [st.target]):
+                    if isinstance(t, ast.Name):
+                        muts[t.id] = st
+    out = []
+    for name, fn in ci.methods.items():
+        if not isinstance(fn, ast.FunctionDef) or any(norm(d) in ("classmethod", "staticmethod") for d in fn.decorator_list):
+            continue
+        rebound = {t.attr for st in ast.walk(fn) if isinstance(st, ast.Assign) for t in st.targets if isinstance(t, ast.Attribute) and norm(t.value) == "self"}
+        for n in ast.walk(fn):
+            attr = None
+            if isinstance(n, ast.Subscript) and isinstance(n.ctx, (ast.Store, ast.Del)) and isinstance(n.value, ast.Attribute) and norm(n.value.value) == "self":
+                attr = n.value.attr
+            elif isinstance(n, ast.Call) and isinstance(n.func, ast.Attribute) and n.func.attr in ("append", "update", "add", "setdefault", "extend", "pop", "clear", "insert") and isinstance(n.func.value, ast.Attribute) and norm(n.func.value.value) == "self":
+                attr = n.func.value.attr
+            if attr in muts and attr not in rebound:
+                out.append((attr, n, name))
+    return out
+
+
+def r12_11(chk):
+    chk.rule("R12.11", "answers cached by one molecular type / genetic code / alphabet are not served to another: no class-level mutable container of these classes is mutated through `self` by an instance method (a dict written as a class attribute is one object shared by DNA, RNA and PROTEIN; a per-instance cache is created in the instance)")
+    n = 0
+    for rel in TABLE_CLASS_MODULES:
+        m = chk.repo.module(rel)
+        for cname, ci in m.classes.items():
+            n += 1
+            hits = _shared_mutable_state(ci)
+            seen = set()
+            for attr, node, meth in hits:
+                if (attr, meth) in seen:
+                    continue
+                seen.add((attr, meth))
+                chk.violation("R12.11", key(m, f"{cname}.{meth}", f"shared class-level cache {attr}"), m.loc(node), f"`{norm(node)[:70]}` writes into `{cname}.{attr}`, a mutable class attribute: every instance (DNA, RNA, PROTEIN ...) shares it, so an answer computed for one molecular type is returned for another (Asn translated as '?' after DNA resolved {{'N'}})")
+            if not hits:
+                chk.ok("R12.11", key(m, cname, "no shared mutable class state"), m.loc(ci.node), "", nontrivial=False)
+    pm = ast.parse("class M:\n    _c = {}\n    def f(self, k):\n        if k not in self._c:\n            self._c[k] = 1\n        return self._c[k]\n")
+
+    class _CI:
+        node = pm.body[0]
+        methods = {"f": pm.body[0].body[1]}
+
+    if not _shared_mutable_state(_CI):
+        raise AnalysisError("R12.11 self-probe failed")
+    chk.floor("R12.11", 0, "expected-zero rule with embedded probe")
+
+
 def run(chk):
+    r12_11(chk)
+    r12_10(chk)
     r12_9(chk)
     r12_4b(chk)
     r12_8(chk)
